@@ -7252,7 +7252,6 @@ tsk_tree_map_mutations(tsk_tree_t *self, int32_t *genotypes,
     const tsk_id_t *restrict left_child = self->left_child;
     const tsk_id_t *restrict right_sib = self->right_sib;
     const tsk_size_t N = tsk_treeseq_get_num_nodes(self->tree_sequence);
-    const tsk_flags_t *restrict node_flags = self->tree_sequence->tables->nodes.flags;
     tsk_id_t *nodes = tsk_malloc(tsk_tree_get_size_bound(self) * sizeof(*nodes));
     /* Note: to use less memory here and to improve cache performance we should
      * probably change to allocating exactly the number of nodes returned by
@@ -7286,10 +7285,7 @@ tsk_tree_map_mutations(tsk_tree_t *self, int32_t *genotypes,
             goto out;
         }
         u = self->tree_sequence->samples[j];
-        if (genotypes[j] == TSK_MISSING_DATA) {
-            /* All bits set */
-            optimal_set[u] = UINT64_MAX;
-        } else {
+        if (genotypes[j] != TSK_MISSING_DATA) {
             optimal_set[u] = set_bit(optimal_set[u], genotypes[j]);
             num_alleles = TSK_MAX(genotypes[j], num_alleles);
             non_missing++;
@@ -7325,8 +7321,10 @@ tsk_tree_map_mutations(tsk_tree_t *self, int32_t *genotypes,
                 allele_count[allele] += bit_is_set(optimal_set[v], allele);
             }
         }
-        /* the virtual root has no flags defined */
-        if (u == (tsk_id_t) N || !(node_flags[u] & TSK_NODE_IS_SAMPLE)) {
+        /* Only samples with a non-missing observation have a (non-empty) set at
+         * this point. All other nodes, including samples whose observation is
+         * missing and the virtual root, get their set from their children. */
+        if (optimal_set[u] == 0) {
             max_allele_count = 0;
             for (allele = 0; allele < num_alleles; allele++) {
                 max_allele_count = TSK_MAX(max_allele_count, allele_count[allele]);
